@@ -162,6 +162,7 @@ HARNESS_EXTRA = {
     "h_thr": ["thr/thr.cpp"],
     "h_http": [],
     "h_dns": [],
+    "h_rpc": ["h/h_rpc_glue.c"],
 }
 
 def prune(keep_rh, san):
@@ -196,7 +197,7 @@ def build_harness(name, repo="/repo", san="asan", extra_libs=()):
     jobs, objs = [], []
     cxx = ["clang++", "-std=c++17", "-O1", "-g", "-D_GNU_SOURCE", "-Wall", "-Wno-unused-function", "-Wno-deprecated-declarations"] + SAN[san] + incs + \
           ["-I" + VERIF, "-I" + os.path.join(libdir, "rpc")]
-    cc = ["clang", "-O1", "-g", "-DHAVE_CONFIG_H", "-D_GNU_SOURCE", "-w"] + SAN[san] + incs + ["-I" + os.path.join(VERIF, "shim")]
+    cc = ["clang", "-O1", "-g", "-DHAVE_CONFIG_H", "-D_GNU_SOURCE", "-w"] + SAN[san] + incs + ["-I" + os.path.join(VERIF, "shim"), "-I" + os.path.join(VERIF, "h"), "-I" + os.path.join(libdir, "rpc")]
     for s in srcs:
         p = os.path.join(VERIF, s)
         key = file_hash([p]) + hh + rh
@@ -215,6 +216,18 @@ def build_harness(name, repo="/repo", san="asan", extra_libs=()):
         rpco = os.path.join(libdir, "rpc", "regress.gen.o")
         if name == "h_http" and os.path.exists(rpco):
             libobjs.append(rpco)
+        if name == "h_rpc":
+            # the generated marshalling code calls malloc/free/strdup directly while event_tagging.c hands it memory from the
+            # library's allocator: for the allocator ledger to see both sides, the generated file is compiled with those
+            # names mapped to the library's mm functions
+            mmo = os.path.join(libdir, "rpc", "regress.gen.mm.o")
+            if not os.path.exists(mmo):
+                mm = ["-D%s=event_mm_%s_" % (f, f) for f in ("malloc", "free", "strdup", "calloc", "realloc")]
+                r = sh(["clang", "-O1", "-g", "-DHAVE_CONFIG_H", "-D_GNU_SOURCE", "-w"] + SAN[san] + incs + mm + ["-I" + os.path.join(libdir, "rpc"), "-c", os.path.join(libdir, "rpc", "regress.gen.c"), "-o", mmo + ".tmp"])
+                if r.returncode != 0:
+                    sys.stderr.write("rpc stub (mm) compile failed:\n" + r.stdout[-3000:]); raise SystemExit(3)
+                os.replace(mmo + ".tmp", mmo)
+            libobjs.append(mmo)
         cmd = ["clang++"] + SAN[san] + ["-o", exe] + objs + libobjs + ["-Wl,--wrap=" + w for w in WRAPS] + ["-lpthread"] + list(extra_libs)
         r = sh(cmd)
         if r.returncode != 0:
